@@ -61,6 +61,12 @@ def ipType? : String → Option IPType
 def dpStr : DataPath → String
   | .vpcRoute => "vpcRoute" | .exclusiveENI => "exclusiveENI" | .vlan => "vlan" | .ipvlan => "ipvlan"
 
+/-- `vlan_strip_type`: 0 = "filter", 1 = "vlan", 2 = key absent, 3 = any other string; only "vlan" selects the VLAN datapath -/
+def strip? : String → Option Bool
+  | "1" => some true
+  | "0" | "2" | "3" => some false
+  | _ => none
+
 def step (op : String) (args : List String) : Option String :=
   match op, args with
   | "default", entries => do
@@ -83,10 +89,10 @@ def step (op : String) (args : List String) : Option String :=
       | none => "nil"
       | some cs => if cs.isEmpty then "empty" else " ".intercalate (cs.map confStr))
   | "dp", [t, strip, trunk] => do
-    pure (dpStr (getDataPath (← ipType? t) (← bool? strip) (← bool? trunk)))
+    pure (dpStr (getDataPath (← ipType? t) (← strip? strip) (← bool? trunk)))
   | "parse", [t, strip, argIf, pi, pe, ri, re, conf] => do
     let c ← conf? conf
-    match parseSetup (← ipType? t) (← bool? strip) (← strHex? argIf) (← pi.toNat?) (← pe.toNat?) (← ri.toNat?) (← re.toNat?) c with
+    match parseSetup (← ipType? t) (← strip? strip) (← strHex? argIf) (← pi.toNat?) (← pe.toNat?) (← ri.toNat?) (← re.toNat?) c with
     | .error _ => pure "err"
     | .ok s =>
       let a (w : Nat) : Option (Nat × Nat) → String
